@@ -395,10 +395,73 @@ def run_models(spec, acc, api):
                     if 'function' in st and st['function'].get('args') and rnd.random() < 0.5:
                         a0 = st['function']['args']
                         st['function']['args'] = a0 + [a0[0]] + ([a0[-1], 'zz', 'zz'] if rnd.random() < 0.5 else [])
+            if rnd.random() < 0.12:
+                # a parameter may be NAMED like a keyword (true / false / null): as a variable the keyword wins, as a CALLEE the parameter is
+                # looked up - a parameter that is only called is used
+                fs = [st['function'] for st in stmts if 'function' in st and st['function'].get('args')]
+                if fs:
+                    fdef = rnd.choice(fs)
+                    kw = rnd.choice(['true', 'false', 'null'])
+                    if kw not in fdef['args']:
+                        fdef['args'] = [kw] + fdef['args'][1:]
+                        fdef['statements'].insert(0, {'expr': {'name': 'm', 'expr': {'function': {'name': kw, 'args': [{'variable': 'n'}]}}}})
+                        ix_def = next(k for k, st in enumerate(stmts) if st.get('function') is fdef)
+                        stmts.insert(ix_def + 1, {'expr': {'name': 'c', 'expr': {'function': {'name': fdef['name'], 'args': [{'variable': rnd.choice(['mathAbs', 'n'])}, {'number': 2.0}]}}}})
+                        acc.count('keyword_named_parameters')
             model = {'statements': stmts}
             init = {'n': 0, 'm': rnd.choice([0, 2]), 'c': rnd.choice([0, 1])}
             name = f'jumplevel{i}'
         check_model(model, init, acc, api, name)
+
+
+def run_deep(acc, api):
+    """Model-level nesting far deeper than any text parses to (models are also built by programs): lint answers as for the shallow model
+    of the same shape, wherever the deep expression sits. Only depths that validate_script and execute_script handle are asked for."""
+    import sys
+    bare_script = api[0]
+    from bare_script.model import lint_script
+
+    def nest(kind, depth):
+        e = {'variable': 'n'}
+        for _ in range(depth):
+            if kind == 'group':
+                e = {'group': e}
+            elif kind == 'unary':
+                e = {'unary': {'op': '-', 'expr': e}}
+            elif kind == 'binary':
+                e = {'binary': {'op': '+', 'left': e, 'right': {'number': 1.0}}}
+            elif kind == 'binary-right':
+                e = {'binary': {'op': '+', 'left': {'number': 1.0}, 'right': e}}
+            else:
+                e = {'function': {'name': 'mathAbs', 'args': [e]}}
+        return e
+
+    def models(kind, depth):
+        e = nest(kind, depth)
+        yield 'global-expr', {'statements': [{'expr': {'name': 'n', 'expr': {'number': 1.0}}}, {'expr': {'expr': e}}]}
+        yield 'global-assign', {'statements': [{'expr': {'name': 'n', 'expr': {'number': 1.0}}}, {'expr': {'name': 'm', 'expr': e}}]}
+        yield 'function-body', {'statements': [{'function': {'name': 'ff', 'args': ['n', 'q'], 'statements': [{'expr': {'expr': e}}, {'return': {'expr': e}}]}}]}
+        yield 'jump-condition', {'statements': [{'expr': {'name': 'n', 'expr': {'number': 0.0}}}, {'jump': {'label': 'L', 'expr': e}}, {'label': 'L'}]}
+    for kind in ('group', 'unary', 'binary', 'binary-right', 'call'):
+        shallow = {where: lint_script(m) for where, m in models(kind, 3)}
+        for depth in (60, 200, 450, 700):
+            for where, m in models(kind, depth):
+                case = {'deep': kind, 'depth': depth, 'where': where}
+                try:
+                    bare_script.validate_script(m)
+                    bare_script.execute_script(copy.deepcopy(m), {'globals': {}})
+                except RecursionError:
+                    acc.count('deep_models_beyond_the_interpreter')
+                    continue
+                acc.case(('deep', kind, depth, where), True)
+                acc.count('deep_model_lints')
+                try:
+                    got = lint_script(m)
+                except Exception as exc:  # pylint: disable=broad-except
+                    acc.violation('lint-raised', f'{type(exc).__name__} for a {where} model with {depth} nested {kind} nodes (validate_script and execute_script handle it)', case)
+                    continue
+                if got != shallow[where]:
+                    acc.violation('lint-depends-on-nesting-depth', f'{where}, {depth} nested {kind} nodes: {got!r:.300} vs depth 3: {shallow[where]!r:.300}', case)
 
 
 def run_shipped(acc, api):
@@ -463,6 +526,7 @@ def run_shard(spec, acc):
         run_models(spec, acc, api)
     else:
         run_shipped(acc, api)
+        run_deep(acc, api)
 
 
 def replay(spec, acc):
